@@ -168,7 +168,10 @@
 #define ascon_squeeze_16(state, data, offset) \
     memcpy((data), (state)->B + (offset), 16)
 #define ascon_squeeze_partial(state, data, offset, count) \
-    memcpy((data), (state)->B + (offset), (count))
+    do { \
+        if ((count) != 0) \
+            memcpy((data), (state)->B + (offset), (count)); \
+    } while (0)
 
 #define ascon_encrypt_8(state, dest, src, offset) \
     lw_xor_block_2_dest((dest), (state)->B + (offset), (src), 8)
